@@ -27,7 +27,9 @@ theorem C13_assemble_prefix_whole (kOf : Nat → Nat) (hashLen mbs : Nat) (conte
     (hj : consumed (assemble kOf hashLen mbs content track (content.length + 1) 0 0) j ≤ c) :
     (assemble kOf hashLen mbs content (track.take c) (content.length + 1) 0 0).take j =
       (assemble kOf hashLen mbs content track (content.length + 1) 0 0).take j := by
-  sorry
+  apply assemble_take_prefix kOf hashLen mbs content track c hpos
+  unfold consumed at hj
+  omega
 
 /-- Header tool: same. -/
 theorem C13_assemble_prefix_header (k hashLen mbs readLen : Nat) (content track : Bytes) (c j : Nat)
@@ -35,14 +37,16 @@ theorem C13_assemble_prefix_header (k hashLen mbs readLen : Nat) (content track 
     (hj : consumed (assembleHeader k hashLen mbs readLen content track (content.length + 1) 0 0) j ≤ c) :
     (assembleHeader k hashLen mbs readLen content (track.take c) (content.length + 1) 0 0).take j =
       (assembleHeader k hashLen mbs readLen content track (content.length + 1) 0 0).take j := by
-  sorry
+  apply assembleHeader_take_prefix k hashLen mbs readLen content track c hpos
+  unfold consumed at hj
+  exact Or.inr (by omega)
 
 /-- The repair loop is sequential: block lists sharing their first `j` blocks write the same first
 `j` blocks. -/
 theorem C13_loop_prefix (O : Ops) (fast : Bool) (thr : Nat) (l1 l2 : List AsmBlock) (j : Nat)
     (h : l1.take j = l2.take j) :
     (runLoop O fast thr l1).written.take j = (runLoop O fast thr l2).written.take j := by
-  sorry
+  rw [runLoop_take O fast thr l1 j, runLoop_take O fast thr l2 j, h]
 
 /-- No file is damaged on account of a truncated track: output length = input length (both tools). -/
 theorem C13_length (O : Ops) (hlen : DecLen O) (fast : Bool) (thr k hashLen mbs readLen : Nat) (kOf : Nat → Nat)
@@ -51,6 +55,7 @@ theorem C13_length (O : Ops) (hlen : DecLen O) (fast : Bool) (thr k hashLen mbs 
         out.length = content.length) ∧
     (∀ out, (correctWholeFile O fast thr kOf hashLen mbs content (track.take c)).output = some out →
         out.length = content.length) := by
-  sorry
+  exact ⟨fun out h => C04_length_header O hlen fast thr k hashLen mbs readLen content _ out h,
+    fun out h => C04_length_whole O hlen fast thr kOf hashLen mbs content _ out h⟩
 
 end Pff.Ecc
